@@ -38,12 +38,48 @@ def example_graphs():
     return out
 
 
+def delicate_docs():
+    """fixed valid documents whose simplified / serialised form is delicate (each one the minimal form of a seeded
+    change that random generation reached too rarely): windows of one pair of which one collapses into a symmetric
+    entry, same-rate windows, migration bounds on epoch boundaries, metadata that looks like the data model"""
+    def three():
+        return [{"name": n, "epochs": [{"start_size": 100}]} for n in "ABC"]
+    docs = []
+
+    def add(tag, demes_, migs, **extra):
+        d = {"time_units": "generations", "demes": demes_}
+        if migs:
+            d["migrations"] = migs
+        d.update(extra)
+        docs.append((d, tag))
+    S = lambda r, s, e, names=("A", "B"): dict({"demes": list(names), "rate": r}, **({"start_time": s} if s is not None else {}), **({"end_time": e} if e is not None else {}))
+    O = lambda r, s, e, a="A", b="B": dict({"source": a, "dest": b, "rate": r}, **({"start_time": s} if s is not None else {}), **({"end_time": e} if e is not None else {}))
+    add("windows0", three(), [S(0.125, 200, 100, ("A", "B", "C")), O(0.0625, 50, 0)])
+    add("windows1", three(), [O(0.125, None, 100), O(0, 100, 50), O(0.125, 50, None), O(0.125, None, 100, "B", "A"), O(0.125, 50, None, "B", "A")])
+    add("sym_sym_same_rate", three(), [S(0.125, 100, 50), S(0.125, 40, 10)])
+    add("sym_oneway_same_rate", three(), [S(0.125, 100, 50), O(0.125, 40, 10)])
+    add("oneway_sym_same_rate", three(), [O(0.125, 100, 50), S(0.125, 40, 10)])
+    add("sym_sym_sym_listed_1_3_2", three(), [S(0.125, 100, 50), S(0.125, 40, 10), S(0.25, 50, 40)])
+    add("sym3_then_pair_same_rate", three(), [S(0.125, 100, 50, ("A", "B", "C")), S(0.125, 40, 10, ("B", "A")), O(0.125, 5, None, "C", "A")])
+    me = lambda: [{"name": "A", "epochs": [{"start_size": 100, "end_time": 80}, {"start_size": 50, "end_time": 30}, {"start_size": 20, "end_time": 0}]},
+                  {"name": "B", "epochs": [{"start_size": 100, "end_time": 50}, {"start_size": 10, "end_time": 0}]}]
+    add("mig_ends_at_first_epoch_end", me(), [O(0.125, None, 80)])
+    add("mig_bounds_on_epoch_ends", me(), [O(0.125, None, 50), O(0.25, 80, 30, "B", "A"), O(0.0625, 30, None)])
+    add("metadata_like_model", three(), [], metadata={"start_time": "Infinity", "time": 5, "nested": {"start_time": "Infinity", "demes": [{"name": "A", "start_time": "Infinity"}],
+                                                                                               "migrations": [{"start_time": "Infinity", "rate": None}]}})
+    return docs
+
+
 def gen_valid_graphs(ctx, n, corpus=False, **kw):
     """n (doc, graph, model features) triples accepted by the implementation"""
     out = []
     if corpus and not getattr(ctx, "_examples_done", False):
         ctx._examples_done = True
         out = example_graphs()
+        for d, tag in delicate_docs():
+            c = impl.resolve(d)
+            if c[0] == "ok":
+                out.append((d, c[2], ["delicate:" + tag]))
     tries = 0
     while len(out) < n and tries < 20 * n + 100:
         tries += 1
